@@ -61,6 +61,7 @@ theorem frame_runNAct (rules : List Rule) (tx : Tx) (a : NAct) : Frame tx (runNA
   | ctlRemoveTargetByTag tag v key => exact ⟨rfl, rfl, rfl, rfl, rfl, rfl, ⟨[], by simp [runNAct]⟩, ⟨[], by simp [runNAct]⟩, ⟨_, rfl⟩, ⟨[], by simp [runNAct]⟩⟩
   | ctlRemoveTargetByMsg msg v key => exact ⟨rfl, rfl, rfl, rfl, rfl, rfl, ⟨[], by simp [runNAct]⟩, ⟨[], by simp [runNAct]⟩, ⟨_, rfl⟩, ⟨[], by simp [runNAct]⟩⟩
   | ctlAuditEngine m => exact Frame.of_eq rfl rfl rfl rfl rfl rfl rfl rfl rfl rfl
+  | setenv k v => exact Frame.of_eq rfl rfl rfl rfl rfl rfl rfl rfl rfl rfl
   | ctlAuditLogParts md =>
     simp only [runNAct]
     split <;> exact Frame.of_eq rfl rfl rfl rfl rfl rfl rfl rfl rfl rfl
